@@ -134,6 +134,17 @@ class H:
                                 "kind": self.replay_kind, "extra": jsonable(extra, m) if extra is not None else None})
         return False
 
+    def ok_equal(self, name, a, b, detail=None):
+        """obligation a == b for real terms that may contain divisions by symbolic terms: discharged syntactically when both
+        sides normalise to the same term, otherwise handed to the solver (a wrong formula is an easy sat for nlsat)"""
+        if z3.is_true(z3.simplify(a == b)) or z3.simplify(a).eq(z3.simplify(b)):
+            st = self.obligations.setdefault(name, [0, 0])
+            st[0] += 1
+            st[1] += 1
+            ENG.stats.final_unsat += 1
+            return True
+        return self.ok(name, a == b, detail)
+
     def fail(self, name, detail=None):
         """unconditional violation candidate on the current path (e.g. an exception the property forbids)"""
         return self.ok(name, False, detail)
@@ -292,7 +303,16 @@ def main(prop, modname, tier, nproc=None):
                 if w.get("kind") is None:
                     continue
                 out = srv.call(modname, w["kind"], w["case"], "witness", w.get("expect"))
-                if out.get("error"):
+                if out.get("violates"):
+                    # the real package breaks the property's concrete oracle on a solver-chosen path representative
+                    v = {"obligation": (out.get("reason") or "witness").split(":")[0], "case": w["case"], "kind": w["kind"], "detail": None,
+                         "extra": None, "observed": out.get("observed"), "real_reason": out.get("reason")}
+                    k = match_known(known, v, out.get("observed"))
+                    if k is not None:
+                        known_hits.append((k, v))
+                    else:
+                        confirmed.append(v)
+                elif out.get("error"):
                     mismatches.append({"case": w["case"], "why": out["error"]})
                 elif out.get("match") is False:
                     mismatches.append({"case": w["case"], "why": out.get("why"), "observed": out.get("observed"), "expect": w.get("expect")})
